@@ -1377,12 +1377,23 @@ def _fs_pred(name):
     return model
 
 
+def path_join_axiom(ctx):
+    """os.path.join(a, b) always ends with b (b relative: a + sep + b; b absolute: b): the one algebraic fact assumed."""
+    if 'path_join' not in ctx.fun_axioms:
+        ctx.fun('path_join', [STR, STR], STR)
+        a = smt.bound(ctx, 'a', STR)
+        b = smt.bound(ctx, 'b', STR)
+        pj = ctx.app('path_join', a, b)
+        ctx.fun_axioms['path_join'] = [smt.ForAll([a, b], SuffixOf(b, pj), patterns=[[pj]])]
+
+
 def _path_fn(name, arity):
     def model(eng, args, kwargs, st, node):
         if not all(isinstance(a, VStr) for a in args):
             raise Undecided('os.path.%s of %r' % (name, args), node)
         eng.trusted_used.add('abstract paths: os.path.join/dirname/basename/abspath/expanduser/realpath as uninterpreted functions')
         if name == 'join':
+            path_join_axiom(eng.ctx)
             t = args[0].t
             for a in args[1:]:
                 t = eng.model_app('path_join', [t, a.t], STR)
